@@ -24,7 +24,19 @@ class C17(Prop):
     level_note = ("Lean kernel + standard axioms; hand-written model; relative truncators enter the model as per-order "
                   "absolute sizes computed by the harness with the library's formula int(ceil(len(order)*t)) "
                   "(float arithmetic not modelled)")
-    theorems = []
+    theorems = [
+        "PrefVerif.C17.isCoarsening_iff",
+        "PrefVerif.C17.catBySize_rule",
+        "PrefVerif.C17.catByCount_rule",
+        "PrefVerif.C17.rawBallots_coarsening",
+        "PrefVerif.C17.padTo_coarsening",
+        "PrefVerif.C17.fromOrdinal_conserves",
+        "PrefVerif.C17.factorise_counts",
+        "PrefVerif.C17.catBySize_rule_strict",
+        "PrefVerif.C17.catByCount_rule_strict",
+        "PrefVerif.C17.sizeRuleStrict_complete",
+        "PrefVerif.C17.countRuleStrict_complete",
+    ]
     rule = ("random ordinal instances (strict/weak, complete or not, multiplicities 1-20) with coarse truncators so "
             "that distinct orders collapse to one ballot in a large share of cases; each of the three parameters; "
             "zero/two parameters for the ValueError guards; raw ballot lists with repetitions for factorise_instance; "
